@@ -703,7 +703,7 @@ def normalize(tree, relpath, digest=None):
     renamed, notes = {}, {}
     if ref and digest is not None and R.get("digests", {}).get(relpath) == digest:
         ref = None      # the module is byte-identical to the reference tree: nothing to inline, substitute or align
-    if ref:
+    if ref is not None:
         from . import inline
         known = R.get("_names")
         if known is None:
@@ -780,6 +780,27 @@ def finish_program(trees):
     is removed from its module (as N3 does within one module)."""
     from . import inline
     todo = inline.foreign_folded()
+    # names folded away inside their own module may still be imported by others (which expanded their calls as well)
+    gone = set()
+    for t in trees.values():
+        gone |= set((getattr(t, "_normal_notes", {}) or {}).get("inlined", {}).get("folded", []))
+    gone &= set(inline.NEW_UNIQUE)
+    if gone:
+        for t in trees.values():
+            loads = {n.id for n in ast.walk(t) if isinstance(n, ast.Name) and isinstance(n.ctx, ast.Load)} | \
+                {n.attr for n in ast.walk(t) if isinstance(n, ast.Attribute)}
+            for holder in ast.walk(t):
+                body = getattr(holder, "body", None)
+                if not isinstance(body, list):
+                    continue
+                for st in list(body):
+                    if isinstance(st, ast.ImportFrom):
+                        keep = [a for a in st.names if not (a.name in gone and (a.asname or a.name) not in loads)]
+                        if len(keep) != len(st.names):
+                            if keep:
+                                st.names = keep
+                            else:
+                                body[body.index(st)] = ast.copy_location(ast.Pass(), st)
     if not todo:
         return
     remaining = {}
